@@ -22,4 +22,11 @@ func init() {
 		Assumptions: append([]string{"the parser returns finite trees without sharing", "optional-field table = explicit `x.F = nil` stores in parser productions + reviewed rows (ProjectColumn.X, RenderProperty.Value)"}, commonAssumptions...),
 		Rules:       []string{"C11/handled", "C11/complete", "C11/nil", "C11/once", "C11/use"},
 	}, ruleC11)
+	register(PropertyMeta{
+		ID:          "C13",
+		Level:       "other",
+		Explanation: "Decided: (pair) every return of (*CompileOptions).Compile is (\"\", error known non-nil on that path) or (builder contents whose last write is the constant \";\", nil), and pql.Compile only forwards; (single) the query variable is known nil when a tabular statement is stored and known non-nil at the success return; (arity) for each row of the knownFunctions table the fact engine shows that when the writer first writes SQL the argument count lies exactly in the documented range, that every earlier return yields a non-nil error and every success return wrote something; (errcheck) every call in package pql to a module function returning error is returned directly or tested by `err != nil { return err }` at once; (gate-let/gate-join) at the emission of an identifier part in writeExpression every path carries ctx.mode != letExprMode and (quoted or name not $left/$right or ctx.mode == joinExprMode); (rowcount) rowCount's success returns carry `not a literal` or IsInteger(); (joinkind) the parser's join-kind lookup records an error on the miss edge that every later return carries. Not decided: 'every rule-abiding program compiles', placement at arbitrary depth.",
+		Assumptions: commonAssumptions,
+		Rules:       []string{"C13/pair", "C13/single", "C13/arity", "C13/errcheck", "C13/gate-let", "C13/gate-join", "C13/rowcount", "C13/joinkind"},
+	}, ruleC13Pair, ruleC13Arity, ruleC13ErrCheck, ruleC13Gates, ruleC13Parser)
 }
